@@ -55,7 +55,7 @@ CLAIMS = {
         "technique": "TLC equivalence check of two TLA+ presentations of the replacement rule + TLC trace validation of rename results against a TLA+ post-condition",
     },
     "C08": {
-        "text": "Every operation of a recorded history is one event carrying the bytes before and after, every public field of the object, a fresh parse of the resulting bytes and, for cursor scripts, bytes + fields + the cursor's accessors after every sub-step. TLC evaluates C08's state predicate after every step and sub-step (spec/History.tla StateWhy, ViewWhy, Designates): bytes acceptable with the two caller-breakable clauses lifted and, when those hold, accepted by the real parser with the same view; section offsets, EDNS offset/count/version/flags/rcode and the cached question equal to Message!FreshView of the bytes; maybe_compressed false only when no pointer is left; a cursor that changed or kept a record still designates it and advancing yields the record that follows. Histories: every single operation (header setters, question getters, recompute, insert into each section of records synthesised from text and of records built field by field with RR::new (the OPT pseudo-record among them: valid, misplaced, duplicate, non-root owner, malformed options), insert of a question, rename, cursor scripts with set_raw_name / delete / double delete / in-place decompression / TTL / address / advance at positions 1..3 of every section incl. the OPT record) on 8 hand-built and TLA+-born packets and 2 synthesised ones, pairs of operations after 16 state-changing first operations, fill-up histories across the size limit, and seeded random histories of 3..14 operations.",
+        "text": "Every operation of a recorded history is one event carrying the bytes before and after, every public field of the object, a fresh parse of the resulting bytes and, for cursor scripts, bytes + fields + the cursor's accessors after every sub-step. TLC evaluates C08's state predicate after every step and sub-step (spec/History.tla StateWhy, ViewWhy, Designates): bytes acceptable with the two caller-breakable clauses lifted and, when those hold, accepted by the real parser with the same view; section offsets, EDNS offset/count/version/flags/rcode and the cached question equal to Message!FreshView of the bytes; maybe_compressed false only when no pointer is left; a cursor that changed or kept a record still designates it and advancing yields the record that follows. Histories: every single operation (header setters, question getters, recompute, insert into each section of records synthesised from text and of records built field by field with RR::new (the OPT pseudo-record among them: valid, misplaced, duplicate, non-root owner, malformed options), insert of a question, rename, cursor scripts with set_raw_name / delete / double delete / in-place decompression / TTL / address / advance at positions 1..3 of every section incl. the OPT record, and advance / in-place decompression through readers of the EDNS options) on 8 hand-built and TLA+-born packets and 2 synthesised ones, pairs of operations after 16 state-changing first operations, fill-up histories across the size limit, and seeded random histories of 3..14 operations.",
         "design_ref": "DESIGN.md section 5, C08",
         "note": TB + "maybe_compressed is an implication; 'exactly one question' and QR gating are lifted (DESIGN.md C08 (ii)); max_payload is not part of the compared view; records handed to insert_rr are well-formed records of their type (an OPT record is one: the message-level rules on it are the library's to enforce, like the single-question rule). Every cursor sub-step, insertion and recompute is in addition compared byte for byte with the implementation-shaped transcription spec/ObjectImpl.tla (notes only).",
         "technique": "TLC trace validation of recorded mutation histories against a TLA+ step relation (state predicate evaluated after every step)",
